@@ -53,6 +53,7 @@ type HarnessStats struct {
 	Rewrites, Audits, ByModel, Folded int
 	AuditFail   []string
 	MonitorChecks int
+	SilentWrites int
 	Transitions int
 	SymPaths    int
 	Unsupported map[string]int
@@ -259,6 +260,7 @@ func (sh *Shared) merge(st *HarnessStats, ex *Exec, reason string, prefixLen int
 	st.ByModel += r.byModel
 	st.Folded += r.folded
 	st.MonitorChecks += r.monitorChecks
+	st.SilentWrites += r.silentWrites
 	st.AuditFail = append(st.AuditFail, r.auditFail...)
 	st.Transitions += len(ex.trace) - prefixLen
 	if prefixLen > 0 {
